@@ -543,3 +543,54 @@ func TestVerifC17_SubParsers(t *testing.T) {
 		}
 	})
 }
+
+// Broader last-wins differential over the whole option vocabulary: for an
+// option given twice, the result equals giving only the later occurrence.
+// Options that are documented to accumulate are excluded.
+var cumulativeOpts = map[string]bool{"--bind": true, "--color": true, "--expect": true, "--preview-window": true, "--toggle-sort": true, "--tmux": true, "--height": true,
+	"--history": true, "--history-size": true, "--walker-root": true, "--help": true, "--version": true, "--man": true, "--bash": true, "--zsh": true, "--fish": true}
+
+func TestVerifC17_LastWinsVocabulary(t *testing.T) {
+	os.Unsetenv("FZF_DEFAULT_OPTS")
+	os.Unsetenv("FZF_DEFAULT_OPTS_FILE")
+	voc := vocabulary()
+	styleVals := []string{"default", "minimal", "full", "full:double", "full:sharp"}
+	rapid.Check(t, func(t *rapid.T) {
+		o := rapid.SampledFrom(voc).Draw(t, "opt")
+		if cumulativeOpts[o] || !strings.HasPrefix(o, "--") {
+			return
+		}
+		vals := optValues
+		if o == "--style" {
+			vals = styleVals
+		}
+		v1 := rapid.SampledFrom(vals).Draw(t, "v1")
+		v2 := rapid.SampledFrom(vals).Draw(t, "v2")
+		// a few other options in between / before, e.g. ones a preset touches
+		ctx := rapid.SampledFrom([][]string{nil, nil, {"--header-border"}, {"--header-lines-border=sharp"}, {"--border=double"}, {"--info=inline"}, {"--style=full"}, {"--list-border"}, {"--input-border"}, {"--margin=1"}, {"--no-separator"}}).Draw(t, "context")
+		argsB := append(append([]string{}, ctx...), o+"="+v2)
+		argsA := append(append(append([]string{}, ctx...), o+"="+v1), o+"="+v2)
+		b, errB, pvB := safeParse(false, argsB)
+		if pvB != nil {
+			t.Fatalf("ParseOptions(%q) panicked: %v", argsB, pvB)
+		}
+		_, err1, pv1 := safeParse(false, append(append([]string{}, ctx...), o+"="+v1))
+		if pv1 != nil {
+			t.Fatalf("ParseOptions(%q) panicked: %v", o+"="+v1, pv1)
+		}
+		if errB != nil || err1 != nil {
+			return
+		}
+		a, errA, pvA := safeParse(false, argsA)
+		vstat.Case("C17/last-wins-vocabulary", fmt.Sprintf("%q", argsA), v1 != v2, "opt="+o)
+		if pvA != nil {
+			t.Fatalf("ParseOptions(%q) panicked: %v", argsA, pvA)
+		}
+		if errA != nil {
+			t.Fatalf("%q and %q are both accepted, but %q is rejected: %v", argsB, o+"="+v1, argsA, errA)
+		}
+		if d := nonFuncFieldsEqual(a, b); d != "" {
+			t.Fatalf("later occurrence does not override the earlier one: %q vs %q differ in %s", argsA, argsB, d)
+		}
+	})
+}
